@@ -148,6 +148,21 @@ RESPONSE = b'HTTP/1.1 200 OK\r\nContent-Length: %d\r\n\r\n' % len(RESP_BODY) + R
 EXTRA_DATA = b'abcd-extra-client-data'
 
 
+def second_effective(c: Dict[str, Any]) -> bool:
+    """A keep-alive client sends its follow-up request only after the first response: that needs the first request to be
+    forwarded and no plugin to swallow the response chunk."""
+    if not c.get('second'):
+        return False
+    beh = {int(k_): v for k_, v in c['behaviour'].items()}
+    for i in c['order']:
+        if beh[i].get('buc', 'pass') in ('drop', 'rej'):
+            return False
+    for i in c['order']:
+        if beh[i].get('hcr', 'pass') in ('drop', 'rej'):
+            return False
+    return all(beh[i].get('huc', 'pass') != 'drop' for i in c['order'])
+
+
 def model(c: Dict[str, Any]) -> Dict[str, Any]:
     """Interpreter of the documented chaining semantics."""
     order = c['order']
@@ -187,6 +202,25 @@ def model(c: Dict[str, Any]) -> Dict[str, Any]:
                 break
     exp['outcome'] = outcome
     exp['forwarded_tags'] = sorted(tags) if outcome == 'forward' else None
+    # a follow-up (keep-alive) request on the same connection: only handle_client_request runs again, in order, each
+    # plugin receiving the request as returned by the previous one
+    exp['hcr2'], exp['outcome2'], exp['forwarded_tags2'] = [], None, None
+    if second_effective(c):
+        tags2: List[str] = []
+        outcome2 = 'forward'
+        for i in order:
+            exp['hcr2'].append((i, sorted(tags2)))
+            b = beh[i].get('hcr', 'pass')
+            if b == 'mod':
+                tags2.append('x-tag-hcr-p%d' % i)
+            elif b == 'drop':
+                outcome2 = 'request-dropped'
+                break
+            elif b == 'rej':
+                outcome2 = 'rejected-after-connect'
+                break
+        exp['outcome2'] = outcome2
+        exp['forwarded_tags2'] = sorted(tags2) if outcome2 == 'forward' else None
     # response path
     exp['client'] = None
     if outcome == 'forward':
@@ -232,7 +266,10 @@ def run_case(c: Dict[str, Any]) -> Dict[str, Any]:
     w = K.World(flags, max_iters=20000)
     auth = b'Proxy-Authorization: Basic dXNlcjpwYXNz\r\n' if c['auth'] else b''
     req = b'GET http://example.test/x HTTP/1.1\r\nHost: example.test\r\n' + auth + b'\r\n'
-    client = ReactiveClient('client', [(req, c['cuts'])])
+    reqs = [(req, c['cuts'])]
+    if second_effective(c):
+        reqs.append((b'GET http://example.test/second HTTP/1.1\r\nHost: example.test\r\n' + auth + b'\r\n', []))
+    client = ReactiveClient('client', reqs)
     w.add_client(client)
     origins: List[K.Peer] = []
 
@@ -307,8 +344,9 @@ def evaluate(c: Dict[str, Any]) -> Tuple[List[Any], Dict[str, Any]]:
             # (a)+(b) order and data flow
             if calls('buc') != exp['buc']:
                 out.append(('before_upstream_connection-chain', feat, calls('buc'), exp['buc']))
-            if exp['outcome'] != 'no-upstream' and calls('hcr') != exp['hcr']:
-                out.append(('handle_client_request-chain', feat, calls('hcr'), exp['hcr']))
+            if exp['outcome'] != 'no-upstream' and calls('hcr') != exp['hcr'] + exp['hcr2']:
+                which = 'first' if calls('hcr')[:len(exp['hcr'])] != exp['hcr'] else 'follow-up'
+                out.append(('handle_client_request-chain', dict(feat, request=which), calls('hcr'), exp['hcr'] + exp['hcr2']))
             # (c) connect
             conns = [x['addr'] for x in w.connect_log]
             if exp['connect'] is None and conns:
@@ -325,7 +363,16 @@ def evaluate(c: Dict[str, Any]) -> Tuple[List[Any], Dict[str, Any]]:
                 got_tags = sorted(k_.lower().decode() for m in p.messages[:1] for k_, _v in m['headers'] if k_.lower().startswith(b'x-tag-')) \
                     if p.ok and p.messages else None
                 if got_tags != exp['forwarded_tags']:
-                    out.append(('forwarded-request-lacks-plugin-modifications', feat, got_tags, exp['forwarded_tags']))
+                    out.append(('forwarded-request-lacks-plugin-modifications', dict(feat, request='first'), got_tags, exp['forwarded_tags']))
+                if exp['outcome2'] is not None and p.ok:
+                    second = p.messages[1:2]
+                    if exp['forwarded_tags2'] is None:
+                        if second or p.partial:
+                            out.append(('request-forwarded-despite-drop-or-reject', dict(feat, request='follow-up'), fwd[-120:], None))
+                    else:
+                        got2 = sorted(k_.lower().decode() for m in second for k_, _v in m['headers'] if k_.lower().startswith(b'x-tag-')) if second else None
+                        if got2 != exp['forwarded_tags2']:
+                            out.append(('forwarded-request-lacks-plugin-modifications', dict(feat, request='follow-up'), got2, exp['forwarded_tags2']))
             # (e) client output
             got = bytes(r['client'].inbuf)
             if exp['outcome'].startswith('rejected'):
@@ -342,10 +389,15 @@ def evaluate(c: Dict[str, Any]) -> Tuple[List[Any], Dict[str, Any]]:
                 if r['client'].eof_iter is None:
                     out.append(('connection-open-after-rejection', feat, None, 'EOF'))
             elif exp['outcome'] == 'forward':
-                if calls('huc') != exp['huc'] and b''.join(x for _, x in calls('huc')[:1]) == RESPONSE:
-                    out.append(('handle_upstream_chunk-chain', feat, calls('huc'), exp['huc']))
-                if got != exp['client']:
-                    out.append(('client-output-differs', feat, got[:120], exp['client'][:120]))
+                n_resp = 2 if exp['outcome2'] == 'forward' else 1
+                if calls('huc') != exp['huc'] * n_resp and all(x == RESPONSE for i_, x in calls('huc') if i_ == c['order'][0]):
+                    out.append(('handle_upstream_chunk-chain', feat, calls('huc'), exp['huc'] * n_resp))
+                want_client = exp['client'] * n_resp
+                if exp['outcome2'] == 'rejected-after-connect':
+                    if not got.startswith(want_client) or r['client'].eof_iter is None:
+                        out.append(('follow-up-rejection-not-delivered', feat, got[:160], want_client[:80]))
+                elif got != want_client:
+                    out.append(('client-output-differs', feat, got[:120], want_client[:120]))
             elif exp['outcome'] == 'no-upstream' and r['extra_sent']:
                 if calls('hcd') != exp['hcd']:
                     out.append(('handle_client_data-chain', feat, calls('hcd'), exp['hcd']))
@@ -376,9 +428,16 @@ B3 = st.sampled_from(['pass', 'pass', 'mod', 'drop'])
 def cases(draw: Any) -> Dict[str, Any]:
     order = draw(st.permutations([0, 1, 2, 3]))[:draw(st.integers(1, 4))]
     beh = {}
+    # a third of the programs are "follow-up focused": the first exchange goes through, so that a second request is sent
+    # on the same connection and handle_client_request chains again
+    followup_focus = draw(st.integers(0, 2)) == 0
     for i in order:
-        beh[str(i)] = {'buc': draw(B4), 'hcr': draw(B4), 'huc': draw(B3), 'hcd': draw(B3), 'log': draw(B3),
-                       'dns': draw(st.sampled_from([None, None, None, '10.9.9.%d' % (i + 1)]))}
+        if followup_focus:
+            beh[str(i)] = {'buc': draw(st.sampled_from(['pass', 'mod'])), 'hcr': draw(st.sampled_from(['pass', 'mod', 'mod'])),
+                           'huc': draw(st.sampled_from(['pass', 'mod'])), 'hcd': 'pass', 'log': draw(B3), 'dns': None}
+        else:
+            beh[str(i)] = {'buc': draw(B4), 'hcr': draw(B4), 'huc': draw(B3), 'hcd': draw(B3), 'log': draw(B3),
+                           'dns': draw(st.sampled_from([None, None, None, '10.9.9.%d' % (i + 1)]))}
     rej = {'status_code': draw(st.sampled_from([403, 418, 451, 500])), 'reason': draw(st.sampled_from([b'Nope', b'I am a teapot'])),
            'headers': draw(st.sampled_from([None, {b'X-Reason': b'policy'}, {b'X-A': b'1', b'Retry-After': b'5'}])),
            'body': draw(st.sampled_from([None, b'', b'rejected by plugin', b'x' * 3000]))}
@@ -387,6 +446,7 @@ def cases(draw: Any) -> Dict[str, Any]:
          'cuts': draw(st.one_of(st.just([]), st.lists(st.integers(1, 80), max_size=3))),
          'ending': draw(st.sampled_from(['client_close', 'client_reset', 'origin_close', 'origin_reset'])),
          'abort_at': draw(st.integers(1, 25)) if abort else None,
+         'second': True if followup_focus else draw(st.booleans()),
          'schedule': draw(st.lists(st.integers(0, 2), max_size=25))}
     return c
 
@@ -399,7 +459,8 @@ def shards(tier: str) -> List[Dict[str, Any]]:
 def run_shard(spec: Dict[str, Any], seed: int, acc: Any) -> None:
     def chk(c: Dict[str, Any]) -> List[Any]:
         vs, info = evaluate(c)
-        labs = ['outcome:' + info['outcome'], 'plugins:%d' % info['plugins'], 'ending:' + ('abort' if info['abort'] else c['ending'])]
+        labs = ['outcome:' + info['outcome'], 'plugins:%d' % info['plugins'], 'ending:' + ('abort' if info['abort'] else c['ending']),
+                'requests:%d' % (2 if second_effective(c) else 1)]
         if info.get('inconclusive'):
             acc.dontcare += 1
         acc.case(c, (info['plugins'] >= 2 and info['nonpass'] >= 1) or info['abort'], labels=labs)
